@@ -187,6 +187,17 @@ func c09Run(r *Run, burnPaused, sendPaused bool, attCfg string) {
 
 	for _, og := range origs {
 		for _, sub := range []Account{UserA, UserB} {
+			// a "replacement" that repeats the original's own body and caller
+			if dm, err := refcodec.DecodeMessage(og.msg); err == nil {
+				a := MkReplaceMessage(sub.Str, og.msg, og.att, dm.Body, dm.DestinationCaller, og.name)
+				a.Desc = fmt.Sprintf("replaceMessage(%s, same body and caller as the original) by %s", og.name, sub.Name)
+				run(a, og.name)
+				if db, err := refcodec.DecodeBurn(dm.Body); err == nil {
+					a := MkReplaceDeposit(sub.Str, og.msg, og.att, dm.DestinationCaller, db.MintRecipient, og.name)
+					a.Desc = fmt.Sprintf("replaceDeposit(%s, same recipient and caller as the original) by %s", og.name, sub.Name)
+					run(a, og.name)
+				}
+			}
 			for _, nb := range newBodies {
 				for _, nc := range shapes {
 					a := MkReplaceMessage(sub.Str, og.msg, og.att, nb.b, nc.b, og.name)
